@@ -395,6 +395,7 @@ theorem Inv.step {fs : List Force} (hw : WF fs) {st : St} (h : Inv fs st) (op : 
     split
     · exact (h.inval_same _).with_m _
     · exact h.with_m _
+  | invalAll g => exact h.inval_same g
   | setParam i j v =>
     simp only [C16.step]
     cases hj : ((fs.getD i default).paramStages)[j]? with
@@ -894,6 +895,8 @@ theorem MInv.step (fs : List Force) {st : St} (h : MInv st) (op : Op) : MInv (C1
         · rw [if_pos he, he]
         · rw [if_neg he]; exact h.byStage e' hc'
     · exact h
+  | invalAll g =>
+    exact (h.change g st.vars [] (fun _ _ _ => rfl) (fun _ _ => rfl)).of_eq rfl rfl rfl
   | mInvalidate e =>
     simp only [C16.step]
     split
